@@ -130,6 +130,24 @@ def check_pure(ctx, cs):
                         a, b, d = (x.evaluate_single(prm[0] if pd == 1 else prm) for x in (obj, nb, back))
                         if not (close_seq(b, a) and close_seq(d, a)):
                             ctx.violate("convert.*", tg + ["evaluation"], small, {"param": prm, "bspline": a, "nurbs": b, "back": d})
+        # a rational shape whose weights are not all one (some are, some are not) cannot be turned into a non-rational one: whatever
+        # the converter hands back evaluates like the input
+        for label, wfun in (("mixed_weights", lambda i: 1.0 if i % 2 == 0 else 2.0), ("first_weight_only", lambda i: 3.0 if i == 0 else 1.0), ("no_unit_weight", lambda i: 2.0 + i % 2)):
+            t2 = tg + [label]
+            try:
+                nb2 = convert.bspline_to_nurbs(build(sh))
+                nb2.weights = [wfun(i) for i in range(len(nb2.weights))]
+                pd = len(sh["deg"])
+                params = [[frac] * pd for frac in (0.0, 0.35, 0.8, 1.0)]
+                before = [nb2.evaluate_single(prm[0] if pd == 1 else prm) for prm in params]      # (rational evaluation is bound to the spec by C01)
+                out = convert.nurbs_to_bspline(nb2)
+                for prm, a in zip(params, before):
+                    b = out.evaluate_single(prm[0] if pd == 1 else prm)
+                    if not close_seq(b, a):
+                        ctx.violate("convert.nurbs_to_bspline", t2, small, {"param": prm, "input_evaluates_to": a, "result_evaluates_to": b, "result_rational": bool(out.rational)})
+                        break
+            except Exception as e:
+                ctx.violate("convert.nurbs_to_bspline", t2 + ["raises"], small, {"exception": repr(e)[:200]})
     elif o["op"] == "grid":
         nu, nv = c["nu"], c["nv"]
         W = [float(fr(w)) for w in o["W"]]
